@@ -30,7 +30,7 @@ ASSUMPTIONS = [
 ]
 RULES = {
     "C13.BP": "send: push only on the count < limit exit of the back-pressure loop (body awaits group.next()); fetch_add(1) and push once each; pushed future wraps the given item future; limit/count constructor values",
-    "C13.DEC": "ForEachFut::poll: fetch_sub(1) once, on the closure future's Ready edge, with done := true; counter incremented only in send",
+    "C13.DEC": "ForEachFut::poll: fetch_sub(1) once, on the closure future's Ready edge, with done := true; counter incremented only in send; no other site of the module lowers or rewrites the counter (who-may-call over every atomic operation of concurrent_stream::for_each that is not a plain read)",
     "C13.CALL": "closure invoked only on the item future's Ready edge with that item; fut_t := None, fut_b := Some(result)",
     "C13.FLUSH": "flush / progress return only after group.next() yielded None",
     "C13.DRIVE": "drive: each Some(item) -> exactly one send(ready(item)); all exits reach flush, whose value is returned",
